@@ -174,6 +174,239 @@ def exec_free(job):
             "which": sc["which"], "points": 0, "trace": [], "overlap": overlap}
 
 
+def exec_routed(job):
+    """two or three sessions whose requests are ROUTED ([UCMM] Route 1/2 --> a second simulator behind a slow link) at the same
+    moment: all of them share the simulator's one connection to that device; every session must get the replies to its own
+    requests.  Each session uses its own tag of the remote device, so ANY order of the sessions' requests that keeps each
+    session's own order is a witness order: the history handed to RouteTrace is session 1's events, then session 2's, ..."""
+    import socket
+    import threading
+    import time
+    from .. import live
+    cfg, plan, latency = job
+    texts = []
+    for tg in cfg["tags"]:
+        name = bytes(bytearray(tg["name"])).decode("ascii")
+        texts.append("%s=%s%s" % (name, tg["type"], "" if tg["scalar"] else "[%d]" % tg["len"]))
+    remote = relay = srv = None
+    socks, evs, exc = {}, {}, ""
+
+    def talk(sk, st):
+        try:
+            sk.sendall(bytes(bytearray(st["fb"])))
+            sk.settimeout(12.0)
+            buf = b""
+            while len(buf) < 24 or len(buf) < 24 + buf[2] + 256 * buf[3]:
+                d = sk.recv(4096)
+                if not d:
+                    break
+                buf += d
+        except (socket.timeout, OSError):
+            buf = b""
+        whole = len(buf) >= 24 and len(buf) == 24 + buf[2] + 256 * buf[3]
+        return {"f": st["f"], "b": list(buf) if whole else [], "hostile": False}
+    try:
+        remote = live.RemoteSim(texts)
+        relay = live.Relay(remote.address, delay=latency, every=True)
+        srv = live.LiveServer(cfg, pers={"k": "routing", "route": {"1/2": "%s:%d" % relay.address}})
+        mem1 = srv.dev.get_mem()
+        go = threading.Barrier(len(plan))
+        for sid, steps in enumerate(plan):
+            socks[sid] = socket.create_connection(srv.address, timeout=5)
+            evs[sid] = [talk(socks[sid], steps[0])]          # register, one session after the other
+
+        def body(sid):
+            go.wait(10)
+            for st in plan[sid][1:]:
+                evs[sid].append(talk(socks[sid], st))
+        ths = [threading.Thread(target=body, args=(sid,), daemon=True) for sid in range(len(plan))]
+        for th in ths:
+            th.start()
+        for th in ths:
+            th.join(60)
+        if any(th.is_alive() for th in ths):
+            exc = "sessions did not finish"
+        end1 = srv.dev.get_mem()
+    except Exception as e:
+        exc = repr(e)
+        mem1 = end1 = []
+    finally:
+        for sk in socks.values():
+            try:
+                sk.close()
+            except OSError:
+                pass
+        if srv:
+            srv.stop()
+        if relay:
+            relay.close()
+        if remote:
+            remote.stop()
+    zero = [[[0] * {"INT": 2, "DINT": 4}[tg["type"]] for _ in range(tg["len"])] for tg in cfg["tags"]]
+    ev = [e for sid in sorted(evs) for e in evs[sid]]
+    return {"cfg1": cfg, "cfg2": cfg, "mem1": mem1, "mem2": zero, "via": {"k": "port", "p": 1, "l": 2}, "ev": ev, "end1": end1, "exc": exc,
+            "steps": [[{k: v for k, v in st.items() if k != "fb"} for st in steps] for steps in plan]}
+
+
+def exec_routed_sched(job):
+    """FORCED schedules of two sessions whose requests are routed to the same remote device at the same moment: real threads run
+    the real per-frame pipeline (as exec_schedule); besides the shared parser locks, taking exclusive use of the shared route
+    connection (client.connector.__enter__: "acq:route") and sending on it ("send:route") are scheduling points.  One schedule:
+    session f runs a points, then session g runs to completion, then the rest.  The remote device is a real simulator
+    process.  Each session uses its own remote tag: the history handed to RouteTrace is session 1's events, then session 2's."""
+    import cpppo
+    from cpppo.server.enip import parser, logix, client
+    from .. import sim, sched, live
+    cfg, plan, schedule = job
+    texts = []
+    for tg in cfg["tags"]:
+        name = bytes(bytearray(tg["name"])).decode("ascii")
+        texts.append("%s=%s%s" % (name, tg["type"], "" if tg["scalar"] else "[%d]" % tg["len"]))
+    f, a, g, b = schedule
+    S = sched.Scheduler([f] * a + [g] * (b if b < 99 else 1000) + [f] * 1000)
+    remote, undo, errors, evs = None, None, [], {}
+    orig_enter, orig_send = client.connector.__enter__, client.connector.unconnected_send
+
+    def traced_enter(self):
+        if not isinstance(self.frame.lock, sched.TracedLock):
+            self.frame.lock = sched.TracedLock(S, "route")
+        return orig_enter(self)
+
+    def traced_send(self, *args, **kwds):
+        S.point("send:route")
+        return orig_send(self, *args, **kwds)
+    mem1 = end1 = []
+    try:
+        remote = live.RemoteSim(texts)
+        dev = sim.Device(cfg, pers={"k": "routing", "route": {"1/2": "%s:%d" % remote.address}})
+        mem1 = dev.get_mem()
+        undo = sched.install(S)
+        client.connector.__enter__, client.connector.unconnected_send = traced_enter, traced_send
+
+        def one(s, st):
+            data = cpppo.dotdict()
+            source = cpppo.peekable(bytes(bytearray(st["fb"])))
+            machine = parser.enip_machine(context="enip")
+            with machine:
+                for _ in machine.run(source=source, data=data, path="request"):
+                    pass
+            ok = logix.process(PEER(s), data=data)
+            rpy = bytes(parser.enip_encode(data.response.enip)) if ok else b""
+            return {"f": st["f"], "b": list(rpy), "hostile": False}
+        for sid, steps in enumerate(plan, start=1):
+            evs[sid] = [one(sid, steps[0])]              # register: before the threads start
+
+        def body(s):
+            def run():
+                for st in plan[s - 1][1:]:
+                    try:
+                        evs[s].append(one(s, st))
+                    except Exception as exc:
+                        errors.append("session %d: %r" % (s, exc))
+                        evs[s].append({"f": st["f"], "b": [], "hostile": False})
+            return run
+        done = S.run({s: body(s) for s in range(1, len(plan) + 1)}, timeout=60.0)
+        if not done:
+            errors.append(S.failed or "did not finish")
+        end1 = dev.get_mem()
+    except Exception as e:
+        errors.append("setup: %r" % (e,))
+    finally:
+        client.connector.__enter__, client.connector.unconnected_send = orig_enter, orig_send
+        if undo:
+            undo()
+        if remote:
+            remote.stop()
+    zero = [[[0] * {"INT": 2, "DINT": 4}[tg["type"]] for _ in range(tg["len"])] for tg in cfg["tags"]]
+    ev = [e for sid in sorted(evs) for e in evs[sid]]
+    return {"cfg1": cfg, "cfg2": cfg, "mem1": mem1, "mem2": zero, "via": {"k": "port", "p": 1, "l": 2}, "ev": ev, "end1": end1, "exc": "", "errors": errors,
+            "schedule": list(schedule), "trace": ["%d:%s" % x for x in S.trace],
+            "steps": [[{k: v for k, v in st.items() if k != "fb"} for st in steps] for steps in plan]}
+
+
+def routed_part(ctx, wd, rng):
+    """concurrent ROUTED sessions (seeded change C09-17): frames from MC_Server's routing frame set, histories judged by RouteTrace"""
+    from .. import serverlib
+    ev = ctx.ev
+    scs = serverlib.emit_scenarios(ctx, wd, 1, "any", "routing", "routing")
+    if not scs:
+        return
+    fr = [{"f": s["sc"]["frames"][0], "fb": s["fb"][0]} for s in scs]
+    cfg = scs[0]["sc"]["cfg"]
+    reg = [x for x in fr if x["f"]["kind"] == "register"][0]
+    routed = [x for x in fr if x["f"]["kind"] == "rr" and x["f"]["route"][0]["l"] == 2 and "uticks" not in x["f"]]
+    local = [x for x in fr if x["f"]["kind"] == "rr" and x["f"]["route"][0]["l"] == 0]
+    tags = sorted(set(x["f"]["req"]["tag"] for x in routed))
+    by = {t: {c: [x for x in routed if x["f"]["req"]["tag"] == t and x["f"]["ctx"][0] == c] for c in (1, 2)} for t in tags}
+    jobs = []
+    for n in range(6 if ctx.quick else 60):
+        plan = []
+        for sid in range(2):
+            # session sid owns remote tag tags[(sid + n) % 2]; its sender context differs from the other session's
+            mine = by[tags[(sid + n) % len(tags)]][1 + sid]
+            wr = [x for x in mine if x["f"]["req"]["svc"] == "write"]
+            rd = [x for x in mine if x["f"]["req"]["svc"] == "read"]
+            steps = [reg, rng.choice(rd), rng.choice(wr), rng.choice(rd)]
+            if n % 3 == 2:
+                steps.insert(2, rng.choice([x for x in local if x["f"]["req"]["svc"] == "read"]))
+            steps.append(rng.choice(rd))
+            plan.append(steps)
+        jobs.append((cfg, plan, 0.1 + 0.05 * (n % 3)))
+    lines = core.pmap(exec_routed, jobs, chunksize=1, procs=min(6, len(jobs)))
+    for ln in lines:
+        ev.case(key="routed" + json.dumps(ln["steps"]), nontrivial=True)
+        if ln["exc"]:
+            ctx.machinery.append("concurrent routed scenario could not run: %s" % ln["exc"][:200])
+    # forced schedules: a dry run (session 1 to completion, then session 2) gives each session's scheduling points
+    plans = [jobs[0][1], jobs[1][1]] if ctx.quick else [j[1] for j in jobs[:6]]
+    sjobs = []
+    for plan in plans:
+        for f, g in ((1, 2), (2, 1)):
+            dry = exec_routed_sched((cfg, plan, (f, 0, f, 99)))
+            if dry["errors"]:
+                ctx.machinery.append("forced routed schedule dry run: %s" % "; ".join(dry["errors"])[:200])
+                continue
+            mine = [lab.split(":", 1)[1] for lab in dry["trace"] if lab.startswith("%d:" % f)]
+            hot = [i for i, lab in enumerate(mine) if lab in ("acq:route", "send:route", "rel:route")]
+            cand = sorted(set(x for i in hot for x in (i, i + 1))) if ctx.quick else list(range(len(mine) + 1))
+            ev.extra["routed_points_per_session"] = len(mine)
+            for a in cand:
+                for b in ((99,) if ctx.quick else (99, 3, 12)):
+                    sjobs.append((cfg, plan, (f, a, g, b)))
+    slines = core.pmap(exec_routed_sched, sjobs, chunksize=1)
+    for ln in slines:
+        ev.case(key="routedsched" + json.dumps([ln["steps"], ln["schedule"]]), nontrivial=True)
+        if ln["errors"]:
+            ctx.violation("routed_concurrency_error", {"routed": True, "schedule": ln["schedule"], "errors": ln["errors"], "trace": ln["trace"][:300], "steps": ln["steps"]},
+                          what="two routed sessions, schedule %s: %s" % (ln["schedule"], "; ".join(ln["errors"])[:300]))
+    ev.extra["routed_forced_schedules"] = len(slines)
+    lines = lines + [ln for ln in slines if not ln["errors"]]
+    ev.sample({"routed_sessions": [[(st["f"]["kind"], st["f"]["req"]["svc"] if st["f"]["kind"] == "rr" else "", st["f"]["route"][0]["l"] if st["f"]["kind"] == "rr" else "")
+                                    for st in steps] for steps in lines[0]["steps"]], "replies": [len(e["b"]) for e in lines[0]["ev"]]})
+    fd, path = tempfile.mkstemp(prefix="routed_", suffix=".ndjson")
+    with os.fdopen(fd, "w") as f:
+        for ln in lines:
+            f.write(json.dumps({k: ln[k] for k in ("cfg1", "cfg2", "mem1", "mem2", "via", "ev", "end1")}, separators=(",", ":")) + "\n")
+    try:
+        r3 = tlc.run("RouteTrace", "RouteTrace.cfg", env={"TRACE_FILE": path}, timeout=1200)
+    finally:
+        os.unlink(path)
+    ev.tlc("routed", r3)
+    rejected = {}
+    for j in r3.json:
+        if "tid" in j:
+            rejected.setdefault(j["tid"], j)
+    if not rejected and r3.distinct != sum(len(ln["ev"]) + 1 for ln in lines):
+        ctx.machinery.append("RouteTrace visited %d states, expected %d" % (r3.distinct, sum(len(ln["ev"]) + 1 for ln in lines)))
+    for tid, j in rejected.items():
+        ln = lines[tid - 1]
+        e = ln["ev"][min(j["at"], len(ln["ev"])) - 1]
+        ctx.violation("routed_%s" % j["why"], {"routed": True, "why": j["why"], "at": j["at"], "steps": ln["steps"], "ev": ln["ev"]},
+                      what="concurrent routed sessions: %s at event %d: request %s answered %s" % (
+                          j["why"], j["at"], json.dumps(e["f"]["req"])[:160], e["b"][40:70]))
+    ev.extra["routed_concurrent_scenarios"] = len(lines)
+
+
 def validate(ctx, lines, name):
     bad = []
     CH = 3000
@@ -264,6 +497,7 @@ def main(ctx):
         ctx.violation("not_linearizable_free_%s" % ln["which"], {"which": ln["which"], "ops": ln["ops"], "ev": ln["ev"], "final": ln["final"]},
                       what="scenario %s on free-running threads: history not linearizable: replies %s final %s" % (
                           ln["which"], json.dumps([o["rpy"] for o in ln["ops"]])[:300], json.dumps(ln["final"])[:200]))
+    routed_part(ctx, wd, rng)
     ev.extra.update({"executions": len(lines), "scheduling_points_per_scenario": maxpts, "free_running_executions": len(flines),
                      "free_running_overlapping": sum(1 for ln in flines if ln["overlap"])})
 
